@@ -357,6 +357,21 @@ func New(ctx context.Context, schema Schema, opts *Opts) *Machine {
 		}
 	}
 
+	// without bound handlers there is no handler loop to watch the parent
+	// context, so dispose from here
+	if ctxDone := m.ctxParent.Done(); ctxDone != nil {
+		mCtxDone := m.ctx.Done()
+		go func() {
+			select {
+			case <-ctxDone:
+				if !m.handlerLoopRunning.Load() {
+					m.Dispose()
+				}
+			case <-mCtxDone:
+			}
+		}()
+	}
+
 	if err != nil {
 		m.AddErr(err, nil)
 	}
